@@ -5,7 +5,7 @@
         GitLabReporter.IsEqual on generated unified diffs vs Model.Platforms. *)
 From Coq Require Import List String ZArith NArith Bool.
 From PintV Require Import Common.Bytes.
-From PintV Require Export Model.CommentsReconcile Model.Platforms.
+From PintV Require Export Model.CommentsReconcile Model.Platforms Model.PlatformBitbucket.
 Import ListNotations.
 Local Open Scope string_scope.
 
@@ -51,7 +51,13 @@ Inductive case :=
 | ServerGL (id : N) (diffs : list gl_diff) (budget : nat) (pend : list pcomment) (nreports : nat) (too_many_msg : string)
            (store0 : list gl_note) (rounds : list (nat * nat * list gl_note))
 | ServerGH (id : N) (diffs : list gl_diff) (budget : nat) (pend : list pcomment)
-           (store0 : list ecomment) (rounds : list (nat * nat * list ecomment)).
+           (store0 : list ecomment) (rounds : list (nat * nat * list ecomment))
+(** BitBucket's own reconciliation: the real toBitBucketComment on (severity, text, path, line, anchor before), the real
+    limitComments, and per round (comments in view, prune actions in order, comments posted) of the real
+    pruneComments + addComments against a fake comments API *)
+| BitBucket (id : N) (changes : option bb_changes) (raw : list (string * string * string * Z * bool))
+            (pending : list bb_pending) (max_comments : nat) (msg : string) (limited : list bb_pending)
+            (rounds : list (list bb_existing * list (N * bb_prune_action) * list bb_pending)).
 
 Definition mcomment_eqb (a b : mcomment) : bool :=
   String.eqb (mc_path a) (mc_path b) && Z.eqb (mc_line a) (mc_line b) && N.eqb (mc_text a) (mc_text b) &&
@@ -137,12 +143,31 @@ Fixpoint check_server {E} (eqb : E -> E -> bool) (run : list E -> list pcomment 
       check_server eqb run store' pend rest
   end.
 
+Definition bb_anchor_eqb (a b : bb_anchor) : bool := anchor_eqb a b.
+Definition bb_pending_eqb (a b : bb_pending) : bool :=
+  bb_anchor_eqb (bp_anchor a) (bp_anchor b) && String.eqb (bp_file_type a) (bp_file_type b) &&
+  String.eqb (bp_text a) (bp_text b) && String.eqb (bp_severity a) (bp_severity b).
+Definition bb_action_eqb (a b : N * bb_prune_action) : bool :=
+  N.eqb (fst a) (fst b) &&
+  match snd a, snd b with BDelete, BDelete | BResolve, BResolve | BEscalateResolve, BEscalateResolve => true | _, _ => false end.
+
+Definition check_bitbucket changes (raw : list (string * string * string * Z * bool)) pending max_comments msg limited
+           (rounds : list (list bb_existing * list (N * bb_prune_action) * list bb_pending)) : list string :=
+  (if list_eqb bb_pending_eqb (map (fun x => let '(sev, text, path, line, before) := x in bb_to_comment changes sev text path line before) raw) pending
+   then [] else ["bitbucket-anchor"]) ++
+  (if list_eqb bb_pending_eqb (bb_limit max_comments msg pending) limited then [] else ["bitbucket-limit"]) ++
+  flat_map (fun rd : list bb_existing * list (N * bb_prune_action) * list bb_pending =>
+              let '(existing, acts, posts) := rd in
+              ((if list_eqb bb_action_eqb (bb_prune existing limited) acts then [] else ["bitbucket-prune"]) ++
+               (if list_eqb bb_pending_eqb (bb_add existing limited) posts then [] else ["bitbucket-add"]))%list) rounds.
+
 Definition check (c : case) : N * list string :=
   match c with
   | Rounds id cfg rounds => (id, flat_map (check_round cfg) rounds)
   | Diff id diff parsed queries gh gl => (id, check_diff diff parsed queries gh gl)
   | ServerGL id diffs budget pend nrep msg store0 rounds =>
       (id, check_server gl_note_eqb (gl_run diffs budget nrep msg) store0 pend rounds)
+  | BitBucket id changes raw pending m msg limited rounds => (id, check_bitbucket changes raw pending m msg limited rounds)
   | ServerGH id diffs budget pend store0 rounds =>
       (id, check_server ecomment_eqb (step (github_srv (map (fun d => (gd_new_path d, gd_diff d)) diffs) budget)) store0 pend rounds)
   end.
